@@ -80,7 +80,7 @@ def correspondence(ck, binpath, t, n):
     if rc != 0:
         ck.tie_broken("harness c20 corr failed", err[-2000:])
         return
-    rows = [json.loads(l) for l in out.splitlines() if l.strip()]
+    rows = [json.loads(l) for l in jlines(out) if l.strip()]
     lat = [r for r in rows if r["kind"] == "lattice"]
     glo = [r for r in rows if r["kind"] == "globals"]
     # the triggers must trigger: forced on by `enables` in a plain main-workspace file
@@ -153,7 +153,7 @@ def search(ck, binpath, n):
     if rc != 0:
         ck.tie_broken("harness c20 search failed", err[-2000:])
         return
-    for l in out.splitlines():
+    for l in jlines(out):
         if not l.strip():
             continue
         v = json.loads(l)
@@ -171,7 +171,7 @@ def replay(ck, binpath, path):
         if case is None:
             continue
         rc, out, err = ck.run_bin(binpath, ["one", "--case-json", json.dumps(case)])
-        for l in out.splitlines():
+        for l in jlines(out):
             if l.strip():
                 vv = json.loads(l)
                 ck.violation(vv["signature"], vv["what"], {"case": vv["case"], "text": vv["text"]})
